@@ -402,41 +402,8 @@ func genC01() {
 		fd2 := findFunc("pkg/build/apk.go", "Context", "postBuildSetApk")
 		emit("c01_runtime_repos_set", c01FromSetsList(fd2, "SetRepositories", 1), fd2, "apk.go postBuildSetApk: SetRepositories gets a sets.List(...)")
 	}
-	{
-		fd := findFunc("pkg/build/build.go", "Context", "GetBuildDateEpoch")
-		call, ok := c01Call(fd, "os.LookupEnv", `"SOURCE_DATE_EPOCH"`, 0)
-		okAfter := false
-		if fd != nil {
-			ast.Inspect(fd, func(n ast.Node) bool {
-				if c, isc := n.(*ast.CallExpr); isc && strings.HasSuffix(exprText(c.Fun), ".BuildTime.After") {
-					okAfter = true
-				}
-				return true
-			})
-		}
-		emit("c01_bde_env_first", ok && okAfter, node(call, fd), "build.go GetBuildDateEpoch: os.LookupEnv(SOURCE_DATE_EPOCH) decides, otherwise the maximum by <p>.BuildTime.After")
-		fd2 := findFunc("internal/cli/build.go", "", "buildImageComponents")
-		ok2 := false
-		if fd2 != nil {
-			ast.Inspect(fd2, func(n ast.Node) bool {
-				is, isif := n.(*ast.IfStmt)
-				if !isif || ok2 {
-					return true
-				}
-				c, isc := is.Cond.(*ast.CallExpr)
-				if !isc || len(c.Args) != 1 || !strings.HasSuffix(exprText(c.Fun), ".After") || len(is.Body.List) != 1 {
-					return true
-				}
-				x := strings.TrimSuffix(exprText(c.Fun), ".After")
-				y := exprText(c.Args[0])
-				if as, isa := is.Body.List[0].(*ast.AssignStmt); isa && len(as.Lhs) == 1 && exprText(as.Lhs[0]) == y && exprText(as.Rhs[0]) == x {
-					ok2 = true
-				}
-				return true
-			})
-		}
-		emit("c01_multiarch_bde_is_max", ok2, fd2, "internal/cli/build.go buildImageComponents: if <bde>.After(<m>) { <m> = <bde> }")
-	}
+	// (the two date loops — GetBuildDateEpoch and the multi-architecture fold of buildImageComponents — are no longer
+	// checked for a shape here: c01Code below emits WHAT they compare and assign, and the theorems are about that)
 	{
 		fd := findFunc("pkg/apk/apk/implementation.go", "APK", "InstallPackages")
 		okR := false
@@ -518,6 +485,7 @@ func genC01() {
 		}
 		g.def("c01_env_defaults", "list (string * string)", "["+strings.Join(pairs, "; ")+"]", "image.go BuildImageFromLayers: defaults added when the configuration does not set them")
 	}
+	c01Code(g, emit)
 	g.def("c01_calls", "list (string * bool)", "["+strings.Join(func() []string {
 		out := make([]string, len(names))
 		for i, n := range names {
@@ -526,4 +494,447 @@ func genC01() {
 		return out
 	}(), "; ")+"]", "every check above, by name")
 	g.write()
+}
+
+// ---- the code of the order-sensitive loops, as data --------------------------------------------
+// Model/Repro2.v interprets what is emitted here; the theorems of Properties/C01.v are stated
+// about these generated values, so a change of WHICH values a loop compares, what it assigns,
+// where a list comes from or which limit a goroutine group gets changes the statement proved.
+
+// c01Root: the identifier an expression is rooted at (x.a.b(), x[i].c, &x, ...).
+func c01Root(e ast.Expr) string {
+	for {
+		switch x := e.(type) {
+		case *ast.SelectorExpr:
+			e = x.X
+		case *ast.CallExpr:
+			e = x.Fun
+		case *ast.UnaryExpr:
+			e = x.X
+		case *ast.StarExpr:
+			e = x.X
+		case *ast.ParenExpr:
+			e = x.X
+		case *ast.IndexExpr:
+			e = x.X
+		case *ast.Ident:
+			return x.Name
+		default:
+			return ""
+		}
+	}
+}
+
+func c01SelName(e ast.Expr) string {
+	if s, ok := e.(*ast.SelectorExpr); ok {
+		return s.Sel.Name
+	}
+	return ""
+}
+
+// c01DateFold reads `if A.After(B) { C = D }` (or .Before) out of fd: the one such statement whose
+// operands are dates of the fold. role() names an operand by what it stands for:
+// "acc" (the running value), "new" (the value met in this round), "init" (the configured
+// SOURCE_DATE_EPOCH / --build-date value), or "other:<text>".
+func c01DateFold(fd *ast.FuncDecl, where string, role func(ast.Expr) string) (code map[string]string, node ast.Node) {
+	code = map[string]string{}
+	if fd == nil {
+		fail("C01: %s not found", where)
+		return code, nil
+	}
+	n := 0
+	ast.Inspect(fd, func(x ast.Node) bool {
+		is, ok := x.(*ast.IfStmt)
+		if !ok {
+			return true
+		}
+		c, ok := is.Cond.(*ast.CallExpr)
+		if !ok || len(c.Args) != 1 {
+			return true
+		}
+		sel, ok := c.Fun.(*ast.SelectorExpr)
+		if !ok || (sel.Sel.Name != "After" && sel.Sel.Name != "Before") {
+			return true
+		}
+		rr, ra := role(sel.X), role(c.Args[0])
+		if strings.HasPrefix(rr, "other:") && strings.HasPrefix(ra, "other:") {
+			return true // a comparison of other instants
+		}
+		n++
+		code["method"], code["recv"], code["arg"] = sel.Sel.Name, rr, ra
+		code["lhs"], code["rhs"] = "other:<no single assignment>", "other:<no single assignment>"
+		if len(is.Body.List) == 1 && is.Else == nil {
+			if as, ok := is.Body.List[0].(*ast.AssignStmt); ok && as.Tok == token.ASSIGN && len(as.Lhs) == 1 && len(as.Rhs) == 1 {
+				code["lhs"], code["rhs"] = role(as.Lhs[0]), role(as.Rhs[0])
+			}
+		}
+		node = is
+		return true
+	})
+	if n != 1 {
+		fail("C01: %s: %d statements of the form `if <date>.After(<date>) {...}` (want 1)", where, n)
+	}
+	return code, node
+}
+
+func c01EmitCode(g *gen, name string, keys []string, code map[string]string, comment string) {
+	var items []string
+	for _, k := range keys {
+		v, ok := code[k]
+		if !ok {
+			v = "other:<not found>"
+		}
+		items = append(items, "("+coqStr(k)+", "+coqStr(v)+")")
+	}
+	g.def(name, "list (string * string)", "["+strings.Join(items, "; ")+"]", comment)
+}
+
+func c01Code(g *gen, emit func(name string, ok bool, where ast.Node, what string)) {
+	// ---- internal/cli/build.go buildImageComponents: the multi-architecture date -----------------
+	{
+		fd := findFunc("internal/cli/build.go", "", "buildImageComponents")
+		acc, nw := map[string]bool{}, map[string]bool{}
+		if fd != nil {
+			ast.Inspect(fd, func(x ast.Node) bool {
+				as, ok := x.(*ast.AssignStmt)
+				if !ok || len(as.Rhs) != 1 || len(as.Lhs) == 0 {
+					return true
+				}
+				id, ok := as.Lhs[0].(*ast.Ident)
+				if !ok {
+					return true
+				}
+				if as.Tok == token.DEFINE && len(as.Lhs) == 1 && c01SelName(as.Rhs[0]) == "SourceDateEpoch" {
+					acc[id.Name] = true
+				}
+				if c, ok := as.Rhs[0].(*ast.CallExpr); ok && c01SelName(c.Fun) == "GetBuildDateEpoch" {
+					nw[id.Name] = true
+				}
+				return true
+			})
+		}
+		role := func(e ast.Expr) string {
+			if id, ok := e.(*ast.Ident); ok {
+				if acc[id.Name] {
+					return "acc"
+				}
+				if nw[id.Name] {
+					return "new"
+				}
+			}
+			if c01SelName(e) == "SourceDateEpoch" {
+				return "init"
+			}
+			return "other:" + exprText(e)
+		}
+		code, node := c01DateFold(fd, "internal/cli/build.go buildImageComponents", role)
+		code["init"] = "other:<no running value>"
+		if len(acc) == 1 {
+			code["init"] = "init" // <acc> := <options>.SourceDateEpoch
+		}
+		// what the index and its SBOM are dated with
+		var used []string
+		if fd != nil {
+			ast.Inspect(fd, func(x ast.Node) bool {
+				c, ok := x.(*ast.CallExpr)
+				if !ok || len(c.Args) == 0 {
+					return true
+				}
+				switch c01SelName(c.Fun) {
+				case "GenerateIndex", "GenerateDockerIndex", "WithSourceDateEpoch":
+					used = append(used, role(c.Args[len(c.Args)-1]))
+				}
+				return true
+			})
+		}
+		code["result"] = "other:<GenerateIndex not called>"
+		if len(used) > 0 {
+			code["result"] = used[0]
+			for _, u := range used {
+				if u != used[0] {
+					code["result"] = "other:<index and options are dated differently>"
+				}
+			}
+		}
+		c01EmitCode(g, "c01_multiarch_fold", []string{"method", "recv", "arg", "lhs", "rhs", "init", "result"}, code,
+			"internal/cli/build.go buildImageComponents, under the mutex, once per finished architecture: if <recv>.<method>(<arg>) { <lhs> = <rhs> }; acc = the running date (starts as <init>), new = this architecture's GetBuildDateEpoch, init = the options' SourceDateEpoch; result = what GenerateIndex / WithSourceDateEpoch are given ["+g.pos(node)+"]")
+	}
+	// ---- pkg/build/build.go GetBuildDateEpoch ---------------------------------------------------------
+	{
+		fd := findFunc("pkg/build/build.go", "Context", "GetBuildDateEpoch")
+		acc := map[string]bool{}
+		var loop *ast.RangeStmt
+		if fd != nil {
+			ast.Inspect(fd, func(x ast.Node) bool {
+				switch y := x.(type) {
+				case *ast.AssignStmt:
+					if id, ok := y.Lhs[0].(*ast.Ident); ok && y.Tok == token.DEFINE && len(y.Lhs) == 1 && len(y.Rhs) == 1 && c01SelName(y.Rhs[0]) == "SourceDateEpoch" {
+						acc[id.Name] = true
+					}
+				case *ast.RangeStmt:
+					if loop == nil {
+						loop = y
+					}
+				}
+				return true
+			})
+		}
+		rangeVar := ""
+		if loop != nil && loop.Value != nil {
+			rangeVar = exprText(loop.Value)
+		}
+		role := func(e ast.Expr) string {
+			if id, ok := e.(*ast.Ident); ok && acc[id.Name] {
+				return "acc"
+			}
+			if s, ok := e.(*ast.SelectorExpr); ok && s.Sel.Name == "BuildTime" && rangeVar != "" && exprText(s.X) == rangeVar {
+				return "new"
+			}
+			if c01SelName(e) == "SourceDateEpoch" {
+				return "init"
+			}
+			return "other:" + exprText(e)
+		}
+		code, node := c01DateFold(fd, "pkg/build/build.go GetBuildDateEpoch", role)
+		code["init"] = "other:<no running value>"
+		if len(acc) == 1 {
+			code["init"] = "init"
+		}
+		if node != nil && (loop == nil || node.Pos() < loop.Pos() || node.End() > loop.End()) {
+			code["method"] = "other:<the comparison is not inside the loop over the installed packages>"
+		}
+		// the loop ranges over what GetInstalled returned
+		code["over"] = "other:<no loop>"
+		if loop != nil && fd != nil {
+			code["over"] = "other:" + exprText(loop.X)
+			ast.Inspect(fd, func(x ast.Node) bool {
+				as, ok := x.(*ast.AssignStmt)
+				if !ok || len(as.Rhs) != 1 || len(as.Lhs) == 0 {
+					return true
+				}
+				if c, ok := as.Rhs[0].(*ast.CallExpr); ok && c01SelName(c.Fun) == "GetInstalled" && exprText(as.Lhs[0]) == exprText(loop.X) {
+					code["over"] = "installed"
+				}
+				return true
+			})
+		}
+		// `if _, ok := os.LookupEnv("SOURCE_DATE_EPOCH"); ok { return X, nil }` before the loop; the final return
+		code["env_set_returns"], code["result"] = "other:<no such statement>", "other:<no final return>"
+		if fd != nil && fd.Body != nil {
+			for _, st := range fd.Body.List {
+				switch y := st.(type) {
+				case *ast.IfStmt:
+					as, ok := y.Init.(*ast.AssignStmt)
+					if !ok || len(as.Lhs) != 2 || len(as.Rhs) != 1 {
+						continue
+					}
+					c, ok := as.Rhs[0].(*ast.CallExpr)
+					if !ok || exprText(c.Fun) != "os.LookupEnv" || len(c.Args) != 1 || exprText(c.Args[0]) != `"SOURCE_DATE_EPOCH"` {
+						continue
+					}
+					if exprText(y.Cond) != exprText(as.Lhs[1]) || (loop != nil && y.Pos() > loop.Pos()) || len(y.Body.List) != 1 {
+						code["env_set_returns"] = "other:<unexpected shape of the SOURCE_DATE_EPOCH test>"
+						continue
+					}
+					if rs, ok := y.Body.List[0].(*ast.ReturnStmt); ok && len(rs.Results) >= 1 {
+						code["env_set_returns"] = role(rs.Results[0])
+					}
+				case *ast.ReturnStmt:
+					if len(y.Results) >= 1 {
+						code["result"] = role(y.Results[0])
+					}
+				}
+			}
+		}
+		c01EmitCode(g, "c01_bde_fold", []string{"method", "recv", "arg", "lhs", "rhs", "init", "result", "over", "env_set_returns"}, code,
+			"pkg/build/build.go GetBuildDateEpoch: when SOURCE_DATE_EPOCH is set return <env_set_returns>; otherwise for every package of <over>: if <recv>.<method>(<arg>) { <lhs> = <rhs> }; acc = the running date (starts as <init>), new = the package's BuildTime, init = the options' SourceDateEpoch; result = what is returned ["+g.pos(node)+"]")
+	}
+	// ---- pkg/build/apk.go initializeApk: the repositories used while installing ---------------------------
+	{
+		fd := findFunc("pkg/build/apk.go", "Context", "initializeApk")
+		recv := ""
+		if fd != nil && fd.Recv != nil && len(fd.Recv.List) == 1 && len(fd.Recv.List[0].Names) == 1 {
+			recv = fd.Recv.List[0].Names[0].Name
+		}
+		norm := func(e ast.Node) string {
+			t := strings.Join(strings.Fields(exprText(e)), " ")
+			if recv == "" || recv == "bc" {
+				return t
+			}
+			// identifier-wise renaming of the receiver to "bc"
+			var b strings.Builder
+			isId := func(c byte) bool {
+				return c == '_' || c >= '0' && c <= '9' || c >= 'a' && c <= 'z' || c >= 'A' && c <= 'Z'
+			}
+			for i := 0; i < len(t); {
+				if isId(t[i]) && (i == 0 || !isId(t[i-1])) {
+					j := i
+					for j < len(t) && isId(t[j]) {
+						j++
+					}
+					w := t[i:j]
+					if w == recv && (i == 0 || t[i-1] != '.') {
+						w = "bc"
+					}
+					b.WriteString(w)
+					i = j
+					continue
+				}
+				b.WriteByte(t[i])
+				i++
+			}
+			return b.String()
+		}
+		// the variable handed to InitDB
+		list := ""
+		var initdb, setrepos *ast.CallExpr
+		if fd != nil {
+			ast.Inspect(fd, func(x ast.Node) bool {
+				c, ok := x.(*ast.CallExpr)
+				if !ok {
+					return true
+				}
+				switch c01SelName(c.Fun) {
+				case "InitDB":
+					if len(c.Args) >= 2 {
+						initdb = c
+						list = exprText(c.Args[1])
+					}
+				case "SetRepositories":
+					setrepos = c
+				}
+				return true
+			})
+		}
+		var sources []string
+		var appends []string
+		appendBeforeSet := true
+		if fd != nil && list != "" {
+			// <list> := sets.List(...): the configuration fields inside, in source order
+			ast.Inspect(fd, func(x ast.Node) bool {
+				as, ok := x.(*ast.AssignStmt)
+				if !ok || len(as.Lhs) != 1 || len(as.Rhs) != 1 || exprText(as.Lhs[0]) != list {
+					return true
+				}
+				c, ok := as.Rhs[0].(*ast.CallExpr)
+				if !ok {
+					return true
+				}
+				if exprText(c.Fun) == "sets.List" && sources == nil {
+					ast.Inspect(c, func(y ast.Node) bool {
+						if s, ok := y.(*ast.SelectorExpr); ok && c01Root(s) == recv {
+							if _, isCall := s.X.(*ast.CallExpr); !isCall {
+								sources = append(sources, coqStr(norm(s)))
+								return false
+							}
+						}
+						return true
+					})
+				}
+				return true
+			})
+			// <list> = append(<list>, E...) with the condition it sits under
+			var walk func(n ast.Node, cond string)
+			walk = func(n ast.Node, cond string) {
+				ast.Inspect(n, func(y ast.Node) bool {
+					switch z := y.(type) {
+					case *ast.IfStmt:
+						if z == n {
+							return true
+						}
+						c := norm(z.Cond)
+						if cond != "" {
+							c = cond + " && " + c
+						}
+						walk(z.Body, c)
+						if z.Else != nil {
+							walk(z.Else, "!("+c+")")
+						}
+						return false
+					case *ast.AssignStmt:
+						if len(z.Lhs) == 1 && len(z.Rhs) == 1 && exprText(z.Lhs[0]) == list {
+							if c, ok := z.Rhs[0].(*ast.CallExpr); ok && exprText(c.Fun) == "append" && len(c.Args) >= 2 && exprText(c.Args[0]) == list {
+								for _, a := range c.Args[1:] {
+									appends = append(appends, "("+coqStr(cond)+", "+coqStr(norm(a))+")")
+								}
+								if setrepos != nil && z.Pos() > setrepos.Pos() {
+									appendBeforeSet = false
+								}
+							}
+						}
+					}
+					return true
+				})
+			}
+			walk(fd.Body, "")
+		}
+		if len(sources) == 0 {
+			fail("C01: pkg/build/apk.go initializeApk: the list handed to InitDB is not a sets.List of configuration fields")
+		}
+		g.def("c01_init_repo_sources", "list string", "["+strings.Join(sources, "; ")+"]",
+			"pkg/build/apk.go initializeApk: the configuration fields whose union (sets.List) is the repository list used while installing")
+		g.def("c01_init_repo_appends", "list (string * string)", "["+strings.Join(appends, "; ")+"]",
+			"pkg/build/apk.go initializeApk: what is appended to that list before SetRepositories writes it, with the condition (receiver spelled bc)")
+		okSet := setrepos != nil && initdb != nil && len(setrepos.Args) >= 2 && exprText(setrepos.Args[1]) == list && appendBeforeSet
+		var where ast.Node = fd
+		if setrepos != nil {
+			where = setrepos
+		}
+		emit("c01_init_setrepos_writes_that_list", okSet, where, "apk.go initializeApk: SetRepositories is handed the list InitDB got, after everything appended to it")
+	}
+	// ---- pkg/apk/apk/implementation.go InstallPackages: the limit of the goroutine group -------------------
+	{
+		fd := findFunc("pkg/apk/apk/implementation.go", "APK", "InstallPackages")
+		term := ""
+		var at ast.Node = fd
+		n := 0
+		if fd != nil {
+			jobs := map[string]bool{} // locals bound to runtime.GOMAXPROCS(0)
+			isProcs := func(e ast.Expr) bool {
+				if id, ok := e.(*ast.Ident); ok && jobs[id.Name] {
+					return true
+				}
+				c, ok := e.(*ast.CallExpr)
+				return ok && exprText(c.Fun) == "runtime.GOMAXPROCS" && len(c.Args) == 1 && exprText(c.Args[0]) == "0"
+			}
+			ast.Inspect(fd, func(x ast.Node) bool {
+				switch y := x.(type) {
+				case *ast.AssignStmt:
+					if len(y.Lhs) == 1 && len(y.Rhs) == 1 && isProcs(y.Rhs[0]) {
+						if id, ok := y.Lhs[0].(*ast.Ident); ok {
+							jobs[id.Name] = true
+						}
+					}
+				case *ast.CallExpr:
+					if c01SelName(y.Fun) != "SetLimit" || len(y.Args) != 1 {
+						return true
+					}
+					n++
+					at = y
+					switch a := y.Args[0].(type) {
+					case *ast.BinaryExpr:
+						if k, ok := intLit(a.Y); ok && a.Op == token.ADD && isProcs(a.X) && k >= 0 && k < 1000 {
+							term = fmt.Sprintf("Some %d", k)
+						} else if k, ok := intLit(a.X); ok && a.Op == token.ADD && isProcs(a.Y) && k >= 0 && k < 1000 {
+							term = fmt.Sprintf("Some %d", k)
+						}
+					default:
+						if isProcs(y.Args[0]) {
+							term = "Some 0"
+						}
+					}
+				}
+				return true
+			})
+		}
+		if n == 0 && fd != nil {
+			term = "None"
+		}
+		if term == "" || n > 1 {
+			fail("C01: pkg/apk/apk/implementation.go InstallPackages: the argument of SetLimit is not <GOMAXPROCS> + <constant>")
+			term = "None"
+		}
+		g.def("c01_install_limit_extra", "option nat", term,
+			"implementation.go InstallPackages: g.SetLimit(runtime.GOMAXPROCS(0) + k) gives Some k; None = the group has no limit ["+g.pos(at)+"]")
+	}
 }
